@@ -10,8 +10,15 @@ and quantifies over ALL files, server kinds, fault scripts and consumer operatio
 Helper lemmas (invariant preservation by induction over the operations): `Proofs/Lemmas/Retry.lean`.
 
 Recorded assumptions: the server is honest (`serve`), a closed body fails its reads (`Body.read`),
-and — for `eof_complete` only — `TruncationSignalled` (a stream that stops early reports an error,
-not a clean EOF); `eof_complete_needs_assumption` shows that this hypothesis cannot be dropped.
+and — for the `eof_complete` family only — an assumption about response streams that stop early and
+look like a clean end.  It is stated per connection, relative to the request the connection answers
+(`Conn.invisibleEnd … = false`): the stream does not end early and cleanly on a successful response,
+*or it does where the reader can tell* (it asked for offset `p`, was answered 200 and fewer than `p`
+bytes arrived: the prefix discard of `reset` comes up short).  `eof_complete_current` needs it of the
+current connection only, `eof_complete_evident` of the connections the download used, and the round-1
+form `eof_complete` (`TruncationSignalled`: no clean early end anywhere in the script) is a corollary.
+`eof_complete_needs_assumption` and `eof_complete_needs_evidence` show that the hypothesis cannot be
+dropped and that the boundary of "evident" (fewer than `p` bytes, status 200) is exact.
 -/
 import Apko.Proofs.Lemmas.Retry
 
@@ -71,24 +78,20 @@ theorem generated_good : Cfg.generated.Good :=
 abbrev final (data : Text) (k : Kind) (script : List Conn) (ops : List Op) : Reader :=
   (run Cfg.generated data k script ops).2
 
-/-- **Everything at once**: the trace of any download is accepted by the Spec checker (the one the
-driver evaluates on the real code's trace) — without the truncation assumption for the non-strict
-checker, with it for the strict one. -/
+/-- **Everything at once**: the trace of any download — any file, server kind, fault script (clean
+early ends included) and consumer — is accepted by the Spec checker, the one the driver evaluates on
+the real code's trace.  No assumption: the checker itself waives the `eof_complete` clause exactly
+while the current connection has a clean early end the reader cannot see. -/
 theorem trace_accepted (data : Text) (k : Kind) (script : List Conn) (ops : List Op) :
-    Spec.accepts data false (final data k script ops).log = true ∧
-    (TruncationSignalled script → Spec.accepts data true (final data k script ops).log = true) := by
-  constructor
-  · obtain ⟨lb, h⟩ := (run_inv generated_good data false k script ops (fun h => nomatch h)).trace
-    simp [Spec.accepts, final, h]
-  · intro hs
-    obtain ⟨lb, h⟩ := (run_inv generated_good data true k script ops (fun _ => hs)).trace
-    simp [Spec.accepts, final, h]
+    Spec.accepts data k script (final data k script ops).log = true := by
+  obtain ⟨lb, w, h, _⟩ := (run_inv generated_good data k script ops).state
+  simp [Spec.accepts, final, h]
 
 /-- after any sequence of reads under any fault script, the bytes handed to the consumer are exactly
 `data.take progress` -/
 theorem delivered_prefix (data : Text) (k : Kind) (script : List Conn) (ops : List Op) :
     delivered (final data k script ops).log = data.take (final data k script ops).progress := by
-  obtain ⟨lb, h⟩ := (run_inv generated_good data false k script ops (fun h => nomatch h)).trace
+  obtain ⟨lb, w, h, _⟩ := (run_inv generated_good data k script ops).state
   have hp := Spec.runFrom_prefix _ _ _ h
   have hc := Spec.runFrom_consumed _ _ _ h
   simp only [Spec.init, Nat.zero_add, List.drop_zero] at hp hc
@@ -99,7 +102,7 @@ theorem range_header_exact (data : Text) (k : Kind) (script : List Conn) (ops : 
     (pre post : List Event) (range : Option Nat)
     (hlog : (final data k script ops).log = pre ++ Event.req range :: post) :
     range = if (delivered pre).length ≠ 0 then some (delivered pre).length else none := by
-  obtain ⟨lb, h⟩ := (run_inv generated_good data false k script ops (fun h => nomatch h)).trace
+  obtain ⟨lb, w, h, _⟩ := (run_inv generated_good data k script ops).state
   rw [hlog] at h
   obtain ⟨s', s2, h1, h2⟩ := Spec.runFrom_split h
   have hc := Spec.runFrom_consumed _ _ _ h1
@@ -114,7 +117,7 @@ theorem no_dup_no_skip (data : Text) (k : Kind) (script : List Conn) (ops : List
     (pre post : List Event) (out : Text) (res : Res)
     (hlog : (final data k script ops).log = pre ++ Event.result out res :: post) :
     out = (data.drop (delivered pre).length).take out.length := by
-  obtain ⟨lb, h⟩ := (run_inv generated_good data false k script ops (fun h => nomatch h)).trace
+  obtain ⟨lb, w, h, _⟩ := (run_inv generated_good data k script ops).state
   rw [hlog] at h
   obtain ⟨s', s2, h1, h2⟩ := Spec.runFrom_split h
   have hc := Spec.runFrom_consumed _ _ _ h1
@@ -127,23 +130,28 @@ theorem no_dup_no_skip (data : Text) (k : Kind) (script : List Conn) (ops : List
     exact List.prefix_iff_eq_take.mp (List.isPrefixOf_iff_prefix.mp hcond.1.1)
   · cases h2
 
-/-- a clean EOF reaches the consumer only when everything was delivered — given that a truncated
-stream surfaces as an error -/
-theorem eof_complete (data : Text) (k : Kind) (script : List Conn) (ops : List Op)
-    (hassume : TruncationSignalled script)
+/-- **a clean EOF reaches the consumer only when everything was delivered** — unless the connection
+that answered the most recent request has a clean early end *that the reader cannot see*
+(`Spec.waiveAfter … pre`, computed from the requests of `pre` and the script alone).  Nothing is asked
+of the other connections of the script: an early clean end that was survived (it was evident, or a
+later request replaced the connection) does not matter. -/
+theorem eof_complete_current (data : Text) (k : Kind) (script : List Conn) (ops : List Op)
     (pre post : List Event) (out : Text)
-    (hlog : (final data k script ops).log = pre ++ Event.result out Res.eof :: post) :
+    (hlog : (final data k script ops).log = pre ++ Event.result out Res.eof :: post)
+    (hcur : Spec.waiveAfter data k script false pre = false) :
     delivered pre ++ out = data := by
-  obtain ⟨lb, h⟩ := (run_inv generated_good data true k script ops (fun _ => hassume)).trace
+  obtain ⟨lb, w, h, _⟩ := (run_inv generated_good data k script ops).state
   rw [hlog] at h
   obtain ⟨s', s2, h1, h2⟩ := Spec.runFrom_split h
   have hc := Spec.runFrom_consumed _ _ _ h1
   have hp := Spec.runFrom_prefix _ _ _ h1
-  simp only [Spec.init, Nat.zero_add, List.drop_zero] at hc hp
+  have hw := Spec.runFrom_waive _ _ _ h1
+  simp only [Spec.init, Nat.zero_add, List.drop_zero] at hc hp hw
+  rw [hcur] at hw
   simp only [Spec.stepEvent] at h2
   split at h2
   · next hcond =>
-    simp only [Bool.and_eq_true, Bool.not_true, Bool.false_or, Bool.or_eq_true, bne_iff_ne, ne_eq,
+    simp only [hw, Bool.and_eq_true, Bool.false_or, Bool.or_eq_true, bne_iff_ne, ne_eq,
       not_true_eq_false, false_or, beq_iff_eq] at hcond
     obtain ⟨t, ht⟩ := hp
     obtain ⟨u, hu⟩ := List.isPrefixOf_iff_prefix.mp hcond.1.1
@@ -160,27 +168,66 @@ theorem eof_complete (data : Text) (k : Kind) (script : List Conn) (ops : List O
     rw [hd, hu0]; simp
   · cases h2
 
+/-- *the refined recorded assumption, for a whole download*: every connection that answered a request
+either has no clean early end on a successful response, or has one that is evident to the reader
+(`Spec.pairs` = the k-th request with the k-th connection of the script) -/
+def EarlyEndsEvident (data : Text) (k : Kind) (script : List Conn) (log : List Event) : Prop :=
+  ∀ x ∈ Spec.pairs log script, x.2.invisibleEnd data k x.1 = false
+
+instance (data : Text) (k : Kind) (script : List Conn) (log : List Event) :
+    Decidable (EarlyEndsEvident data k script log) := by unfold EarlyEndsEvident; infer_instance
+
+/-- the script-level assumption of round 1 implies the refined one, for every trace -/
+theorem earlyEndsEvident_of_signalled {script : List Conn} (h : TruncationSignalled script)
+    (data : Text) (k : Kind) (log : List Event) : EarlyEndsEvident data k script log :=
+  fun x hx => invisibleEnd_of_signals (h x.2 (Spec.pairs_mem log script x hx)) data k x.1
+
+/-- **the Impl never reports a clean EOF short of the file when every early clean end is evident or
+absent** — scripts with evident truncations (a restart answered 200 whose body ends cleanly before the
+resume offset) are covered -/
+theorem eof_complete_evident (data : Text) (k : Kind) (script : List Conn) (ops : List Op)
+    (hassume : EarlyEndsEvident data k script (final data k script ops).log)
+    (pre post : List Event) (out : Text)
+    (hlog : (final data k script ops).log = pre ++ Event.result out Res.eof :: post) :
+    delivered pre ++ out = data := by
+  apply eof_complete_current data k script ops pre post out hlog
+  apply Spec.waiveAfter_of_pairs
+  intro x hx
+  apply hassume x
+  rw [hlog]
+  exact Spec.pairs_append_left pre _ script x hx
+
+/-- the round-1 statement, now a corollary: a clean EOF reaches the consumer only when everything was
+delivered — given that no stream of the script stops early looking like a clean end -/
+theorem eof_complete (data : Text) (k : Kind) (script : List Conn) (ops : List Op)
+    (hassume : TruncationSignalled script)
+    (pre post : List Event) (out : Text)
+    (hlog : (final data k script ops).log = pre ++ Event.result out Res.eof :: post) :
+    delivered pre ++ out = data :=
+  eof_complete_evident data k script ops (earlyEndsEvident_of_signalled hassume data k _) pre post out hlog
+
 /-- when the last attempt of a `Read` failed (no retry left, or the resumption itself failed) the
 `Read` returns an error: between the last body read and the result there are only requests -/
 theorem exhausted_is_error (data : Text) (k : Kind) (script : List Conn) (ops : List Op)
     (pre mid post : List Event) (lb : Res) (out : Text) (res : Res)
     (hlog : (final data k script ops).log = pre ++ Event.body lb :: (mid ++ Event.result out res :: post))
     (hmid : Spec.Quiet mid) (hlb : lb.isErr = true) : res.isErr = true := by
-  obtain ⟨lb0, h⟩ := (run_inv generated_good data false k script ops (fun h => nomatch h)).trace
+  obtain ⟨lb0, w, h, _⟩ := (run_inv generated_good data k script ops).state
   rw [hlog] at h
   rw [Spec.runFrom_append] at h
-  cases hp : Spec.runFrom data false Spec.init pre with
+  cases hp : Spec.runFrom data k (Spec.init script) pre with
   | none => simp [hp] at h
   | some s1 =>
     simp only [hp, Option.bind_some, Spec.runFrom, Spec.stepEvent] at h
     obtain ⟨s', s2, h1, h2⟩ := Spec.runFrom_split h
-    have := Spec.runFrom_quiet _ _ _ hmid h1
-    subst this
+    have hq := (Spec.runFrom_quiet _ _ _ hmid h1).2
+    simp only at hq
     simp only [Spec.stepEvent] at h2
     split at h2
     · next hcond =>
       simp only [Bool.and_eq_true] at hcond
       have h3 := hcond.2
+      rw [hq] at h3
       cases lb <;> simp_all [Res.isErr]
     · cases h2
 
@@ -196,21 +243,15 @@ theorem requests_bounded (data : Text) (k : Kind) (r : Reader) (m : Nat) :
   have : Cfg.generated.sched.count true = 2 := by decide
   omega
 
-/-! ## the recorded assumption is necessary, and the hypotheses are satisfiable -/
+/-! ## the recorded assumption is necessary and its boundary exact; the hypotheses are satisfiable -/
 
-/-- a stream that stops after one byte of "ab" and *looks* like a clean end -/
-def silentCut : Conn :=
-  { connFail := false, status := none, page := [], noBody := false, cutAfter := some 1,
+/-- a stream that stops after `cut` bytes and *looks* like a clean end, on a successful status -/
+def cleanCut (cut : Nat) (status : Option Nat) : Conn :=
+  { connFail := false, status := status, page := [], noBody := false, cutAfter := some cut,
     ending := .clean, chunks := [], eager := false }
 
-/-- without `TruncationSignalled` a short body is accepted as complete: `eof_complete` cannot be
-proved unconditionally (the reader never compares `progress` with Content-Length) -/
-theorem eof_complete_needs_assumption :
-    ∃ (data : Text) (k : Kind) (script : List Conn) (ops : List Op) (pre post : List Event) (out : Text),
-      (final data k script ops).log = pre ++ Event.result out Res.eof :: post ∧
-      delivered pre ++ out ≠ data :=
-  ⟨['a', 'b'], .honours, [silentCut], [.read 4, .read 4],
-    [.req none, .body .ok, .result ['a'] .ok, .body .eof], [], [], by decide, by decide⟩
+/-- a stream that stops after one byte of "ab" and *looks* like a clean end -/
+def silentCut : Conn := cleanCut 1 none
 
 def dropAt (cut : Nat) (eager : Bool) : Conn :=
   { connFail := false, status := none, page := [], noBody := false, cutAfter := some cut,
@@ -219,6 +260,53 @@ def dropAt (cut : Nat) (eager : Bool) : Conn :=
 def cleanConn : Conn :=
   { connFail := false, status := none, page := [], noBody := false, cutAfter := none,
     ending := .clean, chunks := [0, 1], eager := false }
+
+/-- without the assumption a short body is accepted as complete: `eof_complete` cannot be proved
+unconditionally (the reader never compares `progress` with Content-Length) -/
+theorem eof_complete_needs_assumption :
+    ∃ (data : Text) (k : Kind) (script : List Conn) (ops : List Op) (pre post : List Event) (out : Text),
+      (final data k script ops).log = pre ++ Event.result out Res.eof :: post ∧
+      delivered pre ++ out ≠ data :=
+  ⟨['a', 'b'], .honours, [silentCut], [.read 4, .read 4],
+    [.req none, .body .ok, .result ['a'] .ok, .body .eof], [], [], by decide, by decide⟩
+
+/-- the boundary of "evident" is exact.  "abcdef", dropped after 3 bytes; the restart is answered 200
+from offset 0 and ends cleanly after exactly 3 bytes (not fewer than the resume offset): the discard
+succeeds, the next read is a clean EOF, and 3 bytes pass for the file.  The same for a 206 answer that
+ends cleanly after 1 byte.  Both connections have an *invisible* early end, and the code cannot do
+better without looking at Content-Length / Content-Range. -/
+theorem eof_complete_needs_evidence :
+    (final "abcdef".toList .ignores [dropAt 3 false, cleanCut 3 none] [.read 4, .read 4]).log =
+      [.req none, .body .ok, .result ['a', 'b', 'c'] .ok, .body .fault, .req (some 3),
+       .body .ok, .body .eof, .result [] .eof] ∧
+    (cleanCut 3 none).invisibleEnd "abcdef".toList .ignores (some 3) = true ∧
+    (final "abcdef".toList .honours [dropAt 3 false, cleanCut 1 none] [.read 4, .read 4, .read 4]).log =
+      [.req none, .body .ok, .result ['a', 'b', 'c'] .ok, .body .fault, .req (some 3),
+       .body .ok, .result ['d'] .ok, .body .eof, .result [] .eof] ∧
+    (cleanCut 1 none).invisibleEnd "abcdef".toList .honours (some 3) = true := by
+  refine ⟨by decide, by decide, by decide, by decide⟩
+
+/-- non-vacuity of `eof_complete_evident` beyond round 1 — the evident truncation.  "abcdef", dropped
+after 3 bytes; the restart is answered 200 from offset 0 (a server that ignores Range, or a forced 200
+from one that honours it) and ends cleanly after 2 bytes, *before* the resume offset: `io.CopyN` comes
+up short with a bare `io.EOF`, `reset` fails, and `Read` reports `errors.Join(io.EOF, err)` — an error,
+not the end of the file; the next `Read` resumes with `bytes=3-` and the download completes.  The script
+satisfies `EarlyEndsEvident` but not `TruncationSignalled`. -/
+example :
+    (final "abcdef".toList .ignores [dropAt 3 false, cleanCut 2 none, cleanConn]
+        [.read 4, .read 4, .read 4, .read 4, .read 4]).log =
+      [.req none, .body .ok, .result ['a', 'b', 'c'] .ok, .body .fault, .req (some 3),
+       .body .ok, .body .eof, .result [] .weof, .body .fault, .req (some 3), .body .ok, .body .ok,
+       .body .ok, .result ['d', 'e', 'f'] .ok, .body .eof, .result [] .eof, .body .eof, .result [] .eof] ∧
+    EarlyEndsEvident "abcdef".toList .ignores [dropAt 3 false, cleanCut 2 none, cleanConn]
+      (final "abcdef".toList .ignores [dropAt 3 false, cleanCut 2 none, cleanConn]
+        [.read 4, .read 4, .read 4, .read 4, .read 4]).log ∧
+    EarlyEndsEvident "abcdef".toList .honours [dropAt 3 false, cleanCut 0 (some 200)]
+      (final "abcdef".toList .honours [dropAt 3 false, cleanCut 0 (some 200)] [.read 4, .read 4]).log ∧
+    ¬ TruncationSignalled [dropAt 3 false, cleanCut 2 none, cleanConn] := by
+  refine ⟨by decide, by decide, by decide, ?_⟩
+  intro h
+  exact absurd (h (cleanCut 2 none) (by simp)) (by decide)
 
 /-- non-vacuity: a download of "abcdef" that is dropped after 2 bytes, then after 1 more byte (reported
 together with the error, so that byte is fetched again), resumes twice with `bytes=2-` and completes —
